@@ -26,3 +26,7 @@ Example tie_strlist :
   addrow_cell_limit = Some 65535%N /\ addrow_guard_action = "error" /\
   sortfile_addrow = ["s.AddRow"; "checked"].
 Proof. repeat split; vm_compute; reflexivity. Qed.
+
+(* saved blocks are put back in offset order by a full sort before the table is assembled *)
+Example tie_sortblocks : sortblocks_shape = "sort-by-offset".
+Proof. vm_compute; reflexivity. Qed.
